@@ -27,6 +27,10 @@ def configs(tier):
                 if ctl == 'nocouple' and ch != 2:
                     continue
                 yield dict(rate=rate, ch=ch, mode='q', q=0.4, max=-1, nom=-1, min=-1, ctl=ctl)
+            # application-side variations the examples never use: no comments / many comments, several vorbis_block objects in rotation, block re-created mid-stream
+            if ch <= 2:
+                for ctl in ('nocomment', 'comments=40', 'blocks=3', 'reinit=5', 'blocks=2,reinit=3'):
+                    yield dict(rate=rate, ch=ch, mode='q', q=0.3, max=-1, nom=-1, min=-1, ctl=ctl)
             # managed: ABR, max-only, min-only, CBR-like, all three
             per = {8000: 16000, 11025: 20000, 16000: 28000, 22050: 36000, 32000: 48000, 44100: 64000, 48000: 64000, 96000: 96000}[rate] * (ch if ch < 3 else 3)
             for (mx, nom, mn) in ((-1, per, -1), (per, -1, -1), (-1, -1, per // 2), (per, per, per), (per * 3 // 2, per, per // 2)):
